@@ -86,6 +86,14 @@ def gen_roundtrip(rng):
             for m in desc["mutations"]:
                 if m[0] == j:
                     m[4] = None
+    # class 11: ids with two / three digits — extra isolated nodes, and rows at 63/64/65, 127..129
+    if rng.random() < 0.03:
+        target = rng.choice([63, 64, 65, 100, 127, 128, 129])
+        while len(desc["nodes"]) < target:
+            desc["nodes"].append([rng.choice([0, 0, 1]), 0, NULL, NULL, ""])
+    # class 1: node ids need not follow time order (edges / mutations / migrations are remapped,
+    # the node rows carry their individual / population with them)
+    desc, _pi = gen_ts.permute_node_ids(rng, desc, p=0.5)
     # application-defined flag bits on top of the sample flag
     for nd in desc["nodes"]:
         if rng.random() < 0.2:
@@ -118,6 +126,23 @@ def gen_roundtrip(rng):
     desc["provenances"] = [[rng.choice(["2024-01-01T00:00:00", "", "t 1", "1999-12-31T23:59:59.999999"]),
                             rng.choice(['{"software": {"name": "x"}}', "", "free text, with = and spaces", "{}", "é"])]
                            for _ in range(rng.choice([0, 1, 1, 2]))]
+    # class 8: one ragged column all-empty beside non-empty siblings
+    for tab, col, empty in rng.sample([("individuals", 1, []), ("individuals", 2, []), ("individuals", 3, ""),
+                                       ("nodes", 4, ""), ("sites", 1, ""), ("sites", 2, ""), ("mutations", 2, ""),
+                                       ("mutations", 5, ""), ("populations", 0, ""), ("migrations", 6, ""),
+                                       ("edges", 4, "")], rng.choice([0, 0, 1, 1, 2])):
+        for row in desc[tab]:
+            row[col] = type(empty)()
+    # class 11: metadata lengths around the Base64 / line-length boundaries
+    if rng.random() < 0.12:
+        for tab, col in (("nodes", 4), ("sites", 2), ("mutations", 5), ("individuals", 3), ("populations", 0)):
+            for row in desc[tab]:
+                if rng.random() < 0.3:
+                    n = rng.choice([47, 48, 49, 62, 63, 64, 65, 66, 95, 96, 97, 190, 191, 192, 193])
+                    row[col] = bytes(rng.randrange(256) for _ in range(n)).hex()
+    if rng.random() < 0.04:
+        for row in desc["individuals"]:
+            row[1] = [fhex(rng.choice(LOCS)) for _ in range(rng.choice([63, 64, 65]))]
     case = {"desc": desc, "extra_precision": rng.choice([0, 0, 0, 1, 3, 10]), "default_precision": rng.random() < 0.3}
     return case
 
@@ -410,7 +435,7 @@ class Roundtrip(Family):
     prelude = "From Coq Require Import String.\nFrom TskVerif Require Import Base.Common C17.Model.\nOpen Scope Z_scope."
 
     def generate(self, rng, tier):
-        n = 500 if tier == "quick" else 4000
+        n = 400 if tier == "quick" else 4000
         for _ in range(n):
             yield gen_roundtrip(rng)
 
@@ -486,7 +511,7 @@ def rnd_md(rng):
         return ""
     if r < 0.6:
         return rng.choice(SPECIAL_MD)
-    return bytes(rng.randrange(256) for _ in range(rng.randrange(1, 12))).hex()
+    return bytes(rng.randrange(256) for _ in range(rng.choice([1, 2, 3, 4, 5, 6, 8, 9, 11, 1, 2, 3, 5, 7, 47, 48, 49, 96]))).hex()
 
 
 def rnd_value(rng, kind, col):
@@ -512,9 +537,9 @@ def rnd_value(rng, kind, col):
     if col in ("ancestral_state", "derived_state"):
         return rng.choice(ALLELES)
     if col == "location":
-        return [fhex(rnd_float(rng)) for _ in range(rng.choice([0, 0, 1, 2, 3]))]
+        return [fhex(rnd_float(rng)) for _ in range(rng.choice([0, 0, 0, 1, 1, 2, 2, 3, 3, 3, 3, 1, 64, 65]))]
     if col == "parents":
-        return [rng.choice([NULL, 0, 1, 5]) for _ in range(rng.choice([0, 0, 1, 2]))]
+        return [rng.choice([NULL, 0, 1, 5, 100, 65536]) for _ in range(rng.choice([0, 0, 0, 1, 1, 2, 2, 2, 1, 0, 1, 2, 63, 64]))]
     raise ValueError(col)
 
 
